@@ -42,6 +42,29 @@ def firing_tags(f):
 
     tags = []
     try:
+        import numpy as _np
+
+        op = f.args[0] if f.args else None
+        datas = [getattr(a, "data", None) for a in f.args[1:3]]
+        if getattr(op, "name", None) == "add" and len(datas) == 2 and all(isinstance(d, _np.ndarray) and d.dtype == bool for d in datas):
+            tags.append("bool-add")
+    except Exception:
+        pass
+    try:
+        # removing a real-typed unit (x * 1.0 -> x) from a product/sum whose other terms are all integer-typed changes the declared dtype
+        from funsor.cnf import Contraction
+        from funsor.terms import Number
+        from funsor.typing import get_origin
+
+        if get_origin(f.cls) is Contraction and f.result is not None:
+            terms = f.args[3] if len(f.args) == 4 and isinstance(f.args[3], tuple) else f.args[3:]
+            units = [t for t in terms if isinstance(t, Number) and t.dtype == "real"]
+            others = [t for t in terms if not any(t is u for u in units)]
+            if units and others and all(getattr(t.output, "dtype", "real") != "real" for t in others) and getattr(f.result.output, "dtype", "real") != "real":
+                tags.append("real-unit-removed-from-int-terms")
+    except Exception:
+        pass
+    try:
         lhs = lift_call(f.cls, f.args)
         occ = bound_name_occurrences(lhs)
         if any(c > 1 and "__BOUND" in n for n, c in occ.items()):
